@@ -1418,6 +1418,12 @@ func (client *client) pollInflights() (cont bool, err error) {
 			client.pl.markUsedLocked(id)
 			client.write(gmqtt.MessageToPublish(m.Message, client.version))
 		case *queue.Pubrel:
+			// the QoS 2 exchange is still open until PUBCOMP: its identifier stays in use
+			// and it still counts against the Receive Maximum of this connection
+			if !client.pl.waitForWindowLocked() {
+				return false, nil
+			}
+			client.pl.markUsedLocked(id)
 			client.write(&packets.Pubrel{PacketID: id})
 		}
 	}
